@@ -261,7 +261,11 @@ func verifC18Parse(files []verifC18File) ([]verifC18Rec, error) {
 		o := 0
 		for o < len(f.data) {
 			d := f.data[o:]
+			last := fi == len(files)-1
 			if len(d) < 4 {
+				if last {
+					break // torn tail
+				}
 				return recs, fmt.Errorf("file %s: %d stray bytes at %d", f.name, len(d), o)
 			}
 			r := verifC18Rec{Pos: f.pos + int64(o), F: fi + 1}
@@ -284,12 +288,20 @@ func verifC18Parse(files []verifC18File) ([]verifC18Rec, error) {
 				r.K, r.Len = "rotFrom", levRotateSize
 			case verifC18Magic:
 				if len(d) < 12 {
+					if last {
+						o = len(f.data)
+						continue // torn tail
+					}
 					return recs, fmt.Errorf("file %s: short event at %d", f.name, o)
 				}
 				n := int(binary.LittleEndian.Uint32(d[4:]))
 				raw := 8 + n
 				r.K, r.Len, r.ID = "ev", int64(AddPadding(raw)), int64(binary.LittleEndian.Uint32(d[8:]))
 				if len(d) < int(r.Len) {
+					if last {
+						o = len(f.data)
+						continue // torn tail
+					}
 					return recs, fmt.Errorf("file %s: event at %d longer than file", f.name, o)
 				}
 				want := append(verifC18Payload(uint32(r.ID), raw), make([]byte, int(r.Len)-raw)...)
@@ -300,6 +312,9 @@ func verifC18Parse(files []verifC18File) ([]verifC18Rec, error) {
 				return recs, fmt.Errorf("file %s: unknown magic %08x at %d", f.name, binary.LittleEndian.Uint32(d), o)
 			}
 			if len(d) < int(r.Len) {
+				if last {
+					break // torn tail
+				}
 				return recs, fmt.Errorf("file %s: record %s at %d longer than file", f.name, r.K, o)
 			}
 			recs = append(recs, r)
@@ -461,6 +476,7 @@ type verifC18Op struct {
 	n    int
 	asap bool
 	from int64 // Restart: resume position, -1: pick a random possible commit position
+	at   int64 // Tear: stream position of the cut, -1: random
 	meta bool
 	wait bool // Sync even if the last append was not ASAP (waits for the flush timer)
 }
@@ -500,6 +516,10 @@ func (w *verifC18World) run(ops []verifC18Op) {
 		var err error
 		recs, err = verifC18Parse(files)
 		if err != nil {
+			// the files are not a sequence of records: show first what a replay of them delivers
+			c := w.newCopy(files, false)
+			w.readCopy(c, recs, verifC18Dmg{t: "none"}, 0, false)
+			c.close()
 			recs = append(recs, verifC18Rec{K: "unparsable: " + err.Error()})
 		}
 		w.tr.Emit("Layout", "recs", recs)
@@ -572,13 +592,62 @@ func (w *verifC18World) run(ops []verifC18Op) {
 			}
 			w.tr.Emit("Restart", "from", from, "meta", op.meta)
 			ok := w.start(from, meta)
-			// what the replay of this run delivered
-			w.emitRead(recs, stream, verifC18Dmg{t: "none"}, from, op.meta, w.eng.snapshotCalls(), nil, w.eng.off, !ok, "")
 			if !ok {
-				return
+				// Run() failed: legitimate only on a torn tail (the writer refuses to start)
+				<-w.done
+				w.tr.Emit("Refused", "msg", w.broken)
+				continue
 			}
+			// a writer that came up on a torn tail must have cut it off
+			w.tr.Emit("Started", "cut", int64(len(verifC18Stream(w.snapshot()))) == w.eng.off)
+			// what the replay of this run delivered
+			w.emitRead(recs, stream, verifC18Dmg{t: "none"}, from, op.meta, w.eng.snapshotCalls(), nil, w.eng.off, false, "")
 			running = true
 			w.off = w.eng.off
+			w.bounds[w.off] = true
+		case "Tear":
+			// a crash inside a write: cut the last file inside (or at the start of) one of its records
+			if running || len(recs) == 0 || len(files) == 0 {
+				continue
+			}
+			lf := files[len(files)-1]
+			first := sort.Search(len(recs), func(i int) bool { return recs[i].F >= len(files) }) + 1 // after the file header
+			if lf.pos == 0 {
+				first++ // LevStart and tag
+			}
+			if first >= len(recs) {
+				continue
+			}
+			k := op.at
+			if k < 0 {
+				r := recs[first+w.rnd.Intn(len(recs)-first)]
+				k = r.Pos + []int64{0, 1, 12, r.Len - 1, w.rnd.Int63n(r.Len)}[w.rnd.Intn(5)]%r.Len
+			}
+			j := sort.Search(len(recs), func(i int) bool { return recs[i].Pos+recs[i].Len > k })
+			if j < first || j >= len(recs) || k < recs[j].Pos {
+				continue
+			}
+			if err := w.fs.Truncate(filepath.Join(w.dir, lf.name), k-lf.pos); err != nil {
+				w.t.Fatalf("verif c18: %v", err)
+			}
+			end := recs[j].Pos
+			for _, m := range []map[int64]bool{w.bounds, w.rcomm} {
+				for p := range m {
+					if p > end {
+						delete(m, p)
+					}
+				}
+			}
+			for p := range w.metas {
+				if p > end {
+					delete(w.metas, p)
+				}
+			}
+			w.bounds[end] = true
+			w.tr.Emit("Tear", "at", k)
+			if !layout() {
+				return
+			}
 		}
 	}
 	if running {
@@ -809,7 +878,7 @@ func (w *verifC18World) audit(files []verifC18File, recs []verifC18Rec) {
 	if stream == nil || len(recs) == 0 {
 		return
 	}
-	total := int64(len(stream))
+	total := recs[len(recs)-1].Pos + recs[len(recs)-1].Len // a torn tail may follow
 	rp := w.resumePoints()
 	nT := verifkit.EnvInt("VERIF_C18_TRUNC", 30)
 	nF := verifkit.EnvInt("VERIF_C18_FLIP", 50)
@@ -935,7 +1004,7 @@ func (w *verifC18World) audit(files []verifC18File, recs []verifC18Rec) {
 func verifC18OpsOf(b []verifkit.Step) []verifC18Op {
 	var ops []verifC18Op
 	for _, s := range b {
-		ops = append(ops, verifC18Op{a: s.Act(), n: s.Int("n"), asap: s.Bool("asap"), from: int64(s.Int("from")), meta: s.Bool("meta")})
+		ops = append(ops, verifC18Op{a: s.Act(), n: s.Int("n"), asap: s.Bool("asap"), from: int64(s.Int("from")), meta: s.Bool("meta"), at: int64(s.Int("at"))})
 	}
 	return ops
 }
@@ -973,6 +1042,9 @@ func verifC18RandomOps(rnd *rand.Rand, long bool) (uint32, int, []verifC18Op) {
 			}
 		case r < 5:
 			ops = append(ops, verifC18Op{a: "Restart", from: -1, meta: rnd.Intn(2) == 0})
+		case r < 7:
+			ops = append(ops, verifC18Op{a: "Stop"}, verifC18Op{a: "Tear", at: -1},
+				verifC18Op{a: "Restart", from: -1, meta: rnd.Intn(2) == 0})
 		}
 	}
 	ops = append(ops, verifC18Op{a: "Stop"})
